@@ -6,9 +6,7 @@ From H263V Require Import base.Prelude base.Checked model.Types model.Syntax mod
 Lemma bridge_k_into_lerp_parameters h :
   -32767 <= h <= 32767 -> k_into_lerp_parameters h = Ok (into_lerp_parameters h).
 Proof.
-  intros Hh. unfold k_into_lerp_parameters, into_lerp_parameters. kstep.
-  subst. destruct (Z.rem h 2 =? 0) eqn:E0; [ksteps; subst; reflexivity|].
-  destruct (h <? 0) eqn:E1; ksteps; subst; reflexivity.
+  intros Hh. unfold k_into_lerp_parameters, into_lerp_parameters. kauto.
 Qed.
 
 Lemma bridge_k_invert h : -32000 <= h <= 32000 -> k_invert h = Ok (invert h).
@@ -34,8 +32,7 @@ Proof.
   { rewrite Hw. subst v. rewrite Z.shiftr_div_pow2, Z.shiftl_mul_pow2 by lia. change (2 ^ 4) with 16. change (2 ^ 1) with 2. lia. }
   rewrite <- Hw. clear Hv Hv0 Hw.
   generalize dependent (Z.land s 15). intros frac Hl.
-  destruct (frac <=? 2) eqn:E0; destruct (14 <=? frac) eqn:E1; destruct (0 <=? frac) eqn:E2;
-    destruct (frac <=? 15) eqn:E3; try lia; cbn [andb]; ksteps; subst; reflexivity.
+  kauto.
 Qed.
 
 Lemma bridge_k_median_of a m r : k_median_of a m r = median_of a m r.
